@@ -152,7 +152,7 @@ func cmdCheck(args []string) int {
 		if c.NoBody || c.Trusted || c.Pkg == "" {
 			continue
 		}
-		if strings.HasPrefix(c.Name, "iface ") || strings.HasPrefix(c.Name, "field ") || strings.HasPrefix(c.Name, "global ") || strings.HasPrefix(c.Name, "param ") || strings.HasPrefix(c.Name, "captured ") {
+		if strings.HasPrefix(c.Name, "iface ") || strings.HasPrefix(c.Name, "field ") || strings.HasPrefix(c.Name, "global ") || strings.HasPrefix(c.Name, "param ") || strings.HasPrefix(c.Name, "captured ") || strings.HasPrefix(c.Name, "result ") {
 			continue
 		}
 		if *prop != "" && !hasProp(c.Props, *prop) {
@@ -370,6 +370,7 @@ func report(g *Gen, prop, tier, verif string, results []*funcResult, wall, loadS
 			if fr.vc == nil {
 				continue
 			}
+			fmt.Printf("  gen %.2fs lines=%d glines=%d obls=%d %s\n", fr.secs, len(fr.vc.lines), len(fr.vc.glines), len(fr.vc.obls), fr.vc.Func)
 			for _, o := range fr.vc.obls {
 				fmt.Printf("  %-8s %-28s %6.2fs %s\n", o.Result, o.Backend, o.Secs, o.Name)
 			}
